@@ -109,11 +109,14 @@ def gen_case(rng, big=False):
     zero = [-dx * (nx - 1) / 2, -dy * (ny - 1) / 2]
     if rng.random() < 0.2:
         zero = [_dy(rng, -1, 1, 4), _dy(rng, -1, 1, 4)]
+    alias = False
+    if dx == dy and rng.random() < 0.2:
+        zero, alias = [dx, dy], True          # delta and zero: the same ndarray object
     # second distance for additivity: same sign, sum stays inside the transfer-function branch when possible
     z2 = z * [0.25, 0.5, 1.0][int(rng.integers(0, 3))]
     if abs(z) + abs(z2) > zmax and abs(z) < zmax:
         z2 = math.copysign(zmax - abs(z), z) if z != 0 else 0.0
-    return {'kind': kind, 'dims': [nx, ny], 'delta': [dx, dy], 'zero': zero, 'lam': lam, 'z': z, 'z2': z2, 'n': n, 'q': q, 's': s,
+    return {'alias': alias, 'kind': kind, 'dims': [nx, ny], 'delta': [dx, dy], 'zero': zero, 'lam': lam, 'z': z, 'z2': z2, 'n': n, 'q': q, 's': s,
             'wf': wf, 'stokes': stokes, 'fseed': int(rng.integers(0, 2 ** 31))}
 
 
@@ -145,9 +148,30 @@ def directed():
 # ---------------------------------------------------------------------------------------------
 # the real objects
 
+USER_ARRAYS = []     # (array handed to hcipy, pristine copy)
+
+
 def build_grid(case):
+    """Regular grid; with case['alias'] delta and zero are one and the same ndarray object."""
     import hcipy
-    return hcipy.CartesianGrid(hcipy.RegularCoords(np.array(case['delta'], dtype=float), np.array(case['dims']), np.array(case['zero'], dtype=float)))
+    d = np.array(case['delta'], dtype=float)
+    z = d if (case.get('alias') and list(case['zero']) == list(case['delta'])) else np.array(case['zero'], dtype=float)
+    del USER_ARRAYS[:]
+    USER_ARRAYS.extend([(d, d.copy()), (z, z.copy())])
+    return hcipy.CartesianGrid(hcipy.RegularCoords(d, np.array(case['dims']), z))
+
+
+def grid_unchanged(grid, snap):
+    bad = []
+    if not np.array_equal(np.array(grid.points, dtype=float), snap[0]) or not np.array_equal(np.array(grid.weights, dtype=float) * np.ones(grid.size), snap[1]):
+        bad.append(('input-grid-modified', 'the grid the user supplied was changed by propagating'))
+    if any(not np.array_equal(a, b) for a, b in USER_ARRAYS):
+        bad.append(('input-array-modified', 'an ndarray the user built the grid from was changed by propagating'))
+    return bad
+
+
+def grid_snapshot(grid):
+    return (np.array(grid.points, dtype=float).copy(), np.array(grid.weights, dtype=float) * np.ones(grid.size))
 
 
 def build_prop(case, grid, z):
@@ -194,6 +218,7 @@ def inner(a, b, w):
 def oracle_case(case, observe=None):
     bad = []
     grid = build_grid(case)
+    gsnap = grid_snapshot(grid)
     reg = exact_regime(case)
     w = float(np.asarray(grid.weights).ravel()[0])
     kind = case['kind']
@@ -256,6 +281,7 @@ def oracle_case(case, observe=None):
                 if not d <= TOL * max(1.0, float(np.abs(one).max())):
                     bad.append(('additive ' + tag, 'z1=%r then z2=%r differs from z1+z2 by %.3g' % (z, z2, d)))
                 obs['additive'] = True
+    bad += grid_unchanged(grid, gsnap)
     if observe is not None:
         observe.update(obs)
     return bad
@@ -505,6 +531,7 @@ def oracle_session(sess, observe=None):
     case = sess['case']
     cur = dict(case)
     grid = build_grid(case)
+    gsnap = grid_snapshot(grid)
     prop = build_prop(case, grid, case['z'])
     prev = 'fresh'
     last_fwd = None
@@ -554,6 +581,7 @@ def oracle_session(sess, observe=None):
         if op['op'] == 'fwd' and op['dtype'] == 'c128':
             last_fwd = (wf_field(cur, x), g)
         prev += '>' + op['op'] + ('(c64)' if op['dtype'] == 'c64' else '')
+    bad += grid_unchanged(grid, gsnap)
     if observe is not None and last_fwd is not None:
         reg = exact_regime(cur)
         near = abs(reg['slack']) <= Fraction(1, 10 ** 7) * max(Fraction(cur['delta'][0]), Fraction(cur['delta'][1]))
@@ -593,6 +621,8 @@ def run(ctx):
                 ctx.violation(key, what, case)
             reg = exact_regime(case)
             ctx.count('kind:' + case['kind'])
+            if case.get('alias'):
+                ctx.count('aliased-delta-zero')
             ctx.count('regime:' + ('impulse-response' if reg['ir'] else ('stated' if reg['stated'] else 'tf-but-pixel<lambda/2')))
             ctx.count('wf:' + case['wf'])
             ctx.count('q=1,s=1' if (case['q'] == 1.0 and case['s'] == 1 and case['kind'] == 'fresnel') else 'padded-or-oversampled')
